@@ -25,9 +25,9 @@ META = {
             "tests/annet/test_patch/*.yaml, used as inputs only) and over synthetic trees built from shipped rule words whose "
             "logic reads the UNCHANGED bucket; non-trivial = device-mode patch has >=1 command; distinct by (vendor, i, j)",
     "explanation": "",
-    "assumptions": ["no ACL, implicit defaults off (as the property states)", "hardware stubs as in the repo's tests"],
+    "assumptions": ["no ACL, implicit defaults off (as the property states)", "hardware stubs as in the repo's tests for the corpus; concrete models Huawei CE6870 / S5700-28C-EI / NE40E for the model-specific synthetic families"],
     "outside": ["configs outside the corpus/synthetic spaces", "directory (PC) mode of the file workers"],
-    "bounds": {"quick": "corpus cross products for all vendors (about 18k pairs) + 2 synthetic huawei families",
+    "bounds": {"quick": "corpus cross products for all vendors (about 18k pairs) + 6 synthetic families (3 on concrete hardware models)",
                "thorough": "same + file workers on temp files for every shipped pair"},
 }
 
